@@ -61,9 +61,24 @@ def run(ctx):
     try:
         ctx.replay("tablespar", cases, "TLC schedules imposed on Builder.ToTables", confirm="any")
     except vlib.Infra as e:
-        if "never recurred" not in str(e):
+        if "panic:" in str(e) or "fatal error:" in str(e):
+            # the computation crashed under an imposed schedule (a panic inside a worker goroutine
+            # takes the process down): confirm by running the schedules again
+            try:
+                ctx.replay("tablespar", cases, "TLC schedules imposed on Builder.ToTables", confirm="any")
+                flaky.append("a crash under an imposed schedule did not recur: " + str(e)[:300])
+            except vlib.Infra as e2:
+                if "panic:" in str(e2) or "fatal error:" in str(e2):
+                    m = re.search(r"(panic: .*|fatal error: .*)", str(e2))
+                    ctx.report([{"signature": "crash-under-imposed-schedule", "family": "tablespar",
+                                 "detail": (m.group(1) if m else "crash") + " | " + str(e2)[-1500:]}], "TLC schedules imposed on Builder.ToTables")
+                else:
+                    raise
+        elif "never recurred" not in str(e):
             raise
-        flaky.append(str(e))   # keep going: trace validation may pin the cause deterministically
+        else:
+            flaky.append(str(e))   # keep going: trace validation may pin the cause deterministically
+    crashed = any(v.get("signature") == "crash-under-imposed-schedule" for v in ctx.violations)
     # the same schedules in a -race build
     race_vh = os.path.join(ctx.work, "vh-race")
     ctx._gobuild(["-race", "-tags", "verif", "-overlay", ctx.overlay, "-o", race_vh, "./" + vlib.HARNESS_PKG_DIR])
@@ -88,6 +103,8 @@ def run(ctx):
             raise vlib.Infra("a data race report did not reproduce on a second run")
         ctx.report([{"signature": "data-race", "detail": (m.group(0) if m else p.stderr)[:3000], "family": "tablespar-race"}],
                    "race detector on imposed schedules")
+    elif p.returncode != 0 and crashed:
+        pass   # already reported
     elif p.returncode != 0:
         raise vlib.Infra("race-build harness failed rc=%d: %s" % (p.returncode, p.stderr[-1500:]))
     else:
